@@ -51,8 +51,8 @@ pub(crate) fn validate_regime(regime: &str, ops: &[Op], builds: &[Vec<Applied>])
             }
         }
     }
-    if ops.iter().any(|o| o.t < 2 * HOUR_MS) {
-        return Err("timestamps must be at least two hours after the datacake epoch".into());
+    if ops.iter().any(|o| o.t < 1_000) {
+        return Err("timestamps must be at least one second after the datacake epoch".into());
     }
     match regime {
         "A" => {
@@ -370,7 +370,13 @@ pub(crate) fn gen_builds(
 }
 
 pub(crate) fn gen_base(rng: &mut impl Rng) -> u64 {
-    (if rng.gen_bool(0.2) { rng.gen_range(2 * HOUR_MS..4 * HOUR_MS) } else { rng.gen_range(1_000_000_000u64..60_000_000_000) }) / 4 * 4
+    // mostly "now-like" stamps; sometimes a few hours or only seconds after the datacake epoch,
+    // where the forgiveness subtraction of the purge cut-off saturates
+    (match rng.gen_range(0..20) {
+        0 => rng.gen_range(1_000..50 * 60_000),
+        1..=3 => rng.gen_range(2 * HOUR_MS..4 * HOUR_MS),
+        _ => rng.gen_range(1_000_000_000u64..60_000_000_000),
+    }) / 4 * 4
 }
 
 impl Check for C03 {
@@ -389,7 +395,7 @@ impl Check for C03 {
     fn assumptions(&self) -> Vec<String> {
         vec![
             "the two admissible regimes of the statement are enforced by the generator and re-validated per case".into(),
-            "timestamps lie at least two hours after the datacake epoch (as any real clock now yields), so the purge cut-off never saturates at zero".into(),
+            "timestamps lie at least one second after the datacake epoch; one case in twenty sits inside the first hour after it, where the cut-off subtraction saturates".into(),
             "no purge in this check (purge is C08's subject)".into(),
         ]
     }
